@@ -19,7 +19,8 @@ RULE = (
     "arguments). Oracle: every returned value is compared at once with an "
     "independent recomputation from (instance, dispatch history) - lists as "
     "sorted fingerprints so duplicates count, available_* as sets - plus the "
-    "partition laws; the UnscheduledOperationsObserver is compared too. "
+    "partition laws; the UnscheduledOperationsObserver (subscribed from the "
+    "start, or attached anew in a generated later state) is compared too. "
     "Non-trivial: >=3 dispatches, a state with a non-empty ongoing set, and "
     "two list-valued queries observed in both relative orders within a state "
     "somewhere in the run."
@@ -74,13 +75,15 @@ def strategy(tier):
         max_machines=5,
         max_total=30 if big else 20,
         benchmarks=("ft06",),
+        big_ok=True,
     )
     q = st.tuples(
         st.just("q"), st.integers(0, len(QUERIES) - 1), st.integers(0, 40), st.integers(0, 5)
     ).map(list)
     d = st.tuples(st.just("d"), st.integers(0, 7), st.integers(0, 5)).map(list)
     r = st.just(["r"])
-    ev = gen.weighted((12, q), (6, d), (1, r))
+    o = st.just(["o"])
+    ev = gen.weighted((12, q), (6, d), (1, r), (1, o))
     return st.fixed_dictionaries(
         {
             "inst": inst,
@@ -276,6 +279,12 @@ def check_case(case, ctx):
             seen_in_state = []
             if drv.model.ongoing(stt.now):
                 saw_ongoing = True
+        elif ev[0] == "o":
+            # a new observer attached in the middle of the run
+            drv.dispatcher.unsubscribe(drv.unsched_obs)
+            drv.unsched_obs = UnscheduledOperationsObserver(drv.dispatcher)
+            run_query(ctx, drv, stt, "observer", 0, 0)
+            ctx.count("observers_attached_mid_run")
         elif ev[0] == "r":
             drv.dispatcher.reset()
             drv.model = ref(inst)
